@@ -244,7 +244,8 @@ func c09Run(c *core.Ctx, prod string, t reflect.Type, la string) {
 	for rep := 0; rep < reps; rep++ {
 		for _, cs := range c09Cases(prod, c.Tier) {
 			for _, lb := range operandLayouts(c) {
-				for _, mode := range cs.modes {
+				for _, modeDest := range c09ModeDests(c, cs.modes) {
+					mode, destLay := modeDest[0], modeDest[1]
 					na, nb := model.Size(cs.sa), model.Size(cs.sb)
 					a, pa := ewBuild(c, t, cs.sa, la, gen.SmallGauss(t, na, c.Rng, -4, 6), nil, nil)
 					b, pb := ewBuild(c, t, cs.sb, lb, gen.SmallGauss(t, nb, c.Rng, -3, 5), nil, nil)
@@ -261,10 +262,13 @@ func c09Run(c *core.Ctx, prod string, t reflect.Type, la string) {
 					var destInit *model.ND
 					if mode != "safe" {
 						var pd string
-						d, pd = ewBuild(c, t, want.Shape, gen.LC, gen.SmallGauss(t, len(want.V), c.Rng, 1, 3), nil, nil)
+						d, pd = ewBuild(c, t, want.Shape, destLay, gen.SmallGauss(t, len(want.V), c.Rng, 1, 3), nil, nil)
 						if pd != "" {
 							c.Inconclusive(pd)
 							continue
+						}
+						if d.op.Layout != destLay {
+							continue // no such destination for this result shape
 						}
 						destInit = d.op.M
 						if mode == "reuse" {
@@ -284,9 +288,13 @@ func c09Run(c *core.Ctx, prod string, t reflect.Type, la string) {
 					if d != nil {
 						d.observe()
 					}
-					key := core.Sig(cs.name, tn, shapeStr(cs.sa), shapeStr(cs.sb), la, lb, mode)
-					caseKey := fmt.Sprintf("%s/%s/%s x %s/%s,%s/%s", cs.name, tn, shapeStr(cs.sa), shapeStr(cs.sb), la, lb, mode)
-					desc := map[string]interface{}{"product": cs.name, "dtype": tn, "a": a.op.Recipe, "b": b.op.Recipe, "mode": mode, "a_values": short(a.op.M.V), "b_values": short(b.op.M.V)}
+					modeName := mode
+					if destLay != gen.LC {
+						modeName = mode + "->" + destLay
+					}
+					key := core.Sig(cs.name, tn, shapeStr(cs.sa), shapeStr(cs.sb), la, lb, modeName)
+					caseKey := fmt.Sprintf("%s/%s/%s x %s/%s,%s/%s", cs.name, tn, shapeStr(cs.sa), shapeStr(cs.sb), la, lb, modeName)
+					desc := map[string]interface{}{"product": cs.name, "dtype": tn, "a": a.op.Recipe, "b": b.op.Recipe, "mode": modeName, "a_values": short(a.op.M.V), "b_values": short(b.op.M.V)}
 					c.Eval(key, la != gen.LC || lb != gen.LC || mode != "safe")
 					if c.WantSample(prod + "/" + mode) {
 						desc["expected"] = short(want.V)
@@ -303,7 +311,7 @@ func c09Run(c *core.Ctx, prod string, t reflect.Type, la string) {
 						if en := engineName(); en != "" && engineFor(t) != nil {
 							sym += "|engine=" + en
 						}
-						c.Violation(core.Sig(prod, cs.name, dtypeClass(t), layoutPairClass(la, lb), mode, sym), caseKey, desc, w, g)
+						c.Violation(core.Sig(prod, cs.name, dtypeClass(t), layoutPairClass(la, lb), modeName, sym), caseKey, desc, w, g)
 					}
 					if len(a.outside) > 0 || len(b.outside) > 0 {
 						viol("outside-operand-changed", "untouched", fmt.Sprint(a.outside, b.outside))
@@ -322,7 +330,7 @@ func c09Run(c *core.Ctx, prod string, t reflect.Type, la string) {
 						if err != nil {
 							m = err.Error()
 						}
-						if la == gen.LC && lb == gen.LC && !(model.IsComplex(t) && (prod == "Dot" || prod == "TensorMul")) { // the contraction and Dot are documented for floats only
+						if la == gen.LC && lb == gen.LC && destLay == gen.LC && !(model.IsComplex(t) && (prod == "Dot" || prod == "TensorMul")) { // the contraction and Dot are documented for floats only
 							viol("refused-contiguous", "a result", m)
 						} else {
 							c.Refused(prod + "|" + layoutPairClass(la, lb))
@@ -450,4 +458,16 @@ func c09Trace(c *core.Ctx) {
 		}
 	}
 	c.Control(true)
+}
+
+// c09ModeDests pairs every option mode with the layouts of its destination: contiguous row-major, and for C16 column-major too.
+func c09ModeDests(c *core.Ctx, modes []string) [][2]string {
+	var out [][2]string
+	for _, m := range modes {
+		out = append(out, [2]string{m, gen.LC})
+		if m != "safe" && c.Prop == "C16" {
+			out = append(out, [2]string{m, gen.LF})
+		}
+	}
+	return out
 }
